@@ -207,6 +207,12 @@ def check(cls, case, rec):
                 rec.label("inverted-state-history-ends")
                 ended = True
                 break
+            if cls == "condensed":
+                # the internal state of the condensed body after a converged substep is consistent: the pressure is the one of the
+                # stored volume ratio, and the stored displacements are those of the converged iterate
+                st_ = body.results.state
+                rec.close("condensed: p = bulk (J - 1) after a converged substep", float(np.abs(np.asarray(st_.p) - body.bulk * (np.asarray(st_.J) - 1)).max()) / body.bulk, 1e-14, {"substep": i})
+                rec.close("condensed: stored displacements = converged iterate", float(np.abs(np.asarray(st_.u) - np.asarray(res.x[0].values)).max()), 0.0)
             if has_state:
                 sv = np.asarray(body.results.statevars, float)
                 um = body.umat
@@ -524,6 +530,16 @@ def ramp_check(kind, case, rec):
         g = np.zeros(3)
         g[:dim] = rng.uniform(-1, 1, dim)
         table = np.array([v * g for v in ramp])
+        if (case["seed"] + len(ramp) + case["n"][0]) % 2 == 0 and len(ramp) >= 2:
+            # gravity along the FIRST axis, the table of ramp rows built by the library's own helper as in its examples:
+            # linsteps(values, num=1, axis=0, axes=3) -> rows (value_i, 0, 0)
+            g[1:] = 0.0
+            table = np.array([v * g for v in ramp])
+            made = np.asarray(fem.math.linsteps([v * g[0] for v in ramp], num=1, axis=0, axes=3))
+            if not rec.require("linsteps(axis=0, axes=3)-gives-the-rows-(value_i, 0, 0)", made.shape == table.shape and bool(np.allclose(made, table, rtol=0, atol=1e-15)), str(made.shape)):
+                return
+            table = made
+            rec.label("ramp-table-from-linsteps(axis=0)")
     step = fem.Step(items=[body, item], ramp={item: table}, boundaries=bounds)
     rec.nontrivial = len(ramp) >= 2
     n = 0
